@@ -39,7 +39,10 @@ RULE = ('one case = a history of 1..8 public mutators (reassign_label(s), relabe
         '(Python int, numpy scalars of all integer dtypes, 0-d arrays, list, tuple, arrays incl. strided, list of numpy '
         'scalars, range, set [counted, not judged], positional / keyword / mixed), mask dtype (bool, uint8, int64, '
         'float64, nested list) and layout, all option combinations, degenerate states (all zero, one label '
-        'everywhere, labels only on the border ring, every label named / removed) at any step; notes axis_* count them')
+        'everywhere, labels only on the border ring, every label named / removed) at any step; notes axis_* count them. '
+        'Second list (notes axis2_*): label lists ascending / descending / with duplicates / padded to nlabels, labels next '
+        'to the dtype limits, one segment touching exactly one border or corner, histories starting from copy() / slices '
+        'of an object whose caches were read, deblend_sources fed with relabelled / copied / sliced inputs')
 CLASSES = ['blobs', 'scatter', 'disconnected', 'no_background', 'single_pixel', 'all_zero', 'gaps_big',
            'dtype_max', 'border', 'tiny', 'layout', 'detect', 'deblend']
 _Q = 'photutils.segmentation.core:SegmentationImage.'
